@@ -597,6 +597,22 @@ fn ctype_of(c: &ClaimData) -> ClaimType {
 
 /// blind issuance: request creation from issuer-supplied public data, blind signing of a holder-supplied
 /// request, unblinding of an issuer-supplied bundle
+/// labels / blindable list / claim count of a credential schema, and key sizes (generators the blind context indexes)
+fn schema_abs(sc: &CredentialSchema) -> Value {
+    json!({"labels": sc.claim_indices.iter().cloned().collect::<Vec<_>>(), "blindable": sc.blind_claims.iter().cloned().collect::<Vec<_>>(), "nclaims": sc.claims.len()})
+}
+fn ngens<T: Serialize>(key: &T, ps_field: &str) -> usize {
+    let v = serde_json::to_value(key).unwrap_or(Value::Null);
+    if let Some(a) = v[ps_field].as_array() {
+        return a.len();
+    }
+    // BBS keys: public key has y; the secret key records max_messages
+    v["y"].as_array().map(|a| a.len()).or_else(|| v["max_messages"].as_u64().map(|x| x as usize)).unwrap_or(0)
+}
+fn nresp_of<T: Serialize>(ctx: &T) -> usize {
+    serde_json::to_value(ctx).ok().and_then(|v| v["proofs"].as_array().map(|a| a.len())).unwrap_or(0)
+}
+
 fn run_blind<S: ShortGroupSignatureScheme>(v: &Value) -> Value {
     let labels: Vec<String> = v["labels"].as_array().unwrap().iter().map(|x| x.as_str().unwrap().to_string()).collect();
     let claims: Vec<ClaimData> = v["claims"].as_array().unwrap().iter().map(claim_from).collect();
@@ -657,10 +673,27 @@ fn run_blind<S: ShortGroupSignatureScheme>(v: &Value) -> Value {
         };
         let mut decode_err: Option<String> = None;
         let mut out = "-";
+        let mut abs = Value::Null;
+        // structural abstract of a blind-signing call: schema, key size, response count, labels, per-label validity
+        let sign_abs = |iss: &Issuer<S>, req_labels: &Vec<String>, nresp: usize, known: &BTreeMap<String, ClaimData>| -> Value {
+            let valid: Vec<Value> = known.iter().map(|(l, c)| {
+                let ok = match iss.schema.claim_indices.get_index_of(l) {
+                    Some(i) => iss.schema.claims.get(i).map(|t| c.is_type(t.claim_type) && t.is_valid(c) == Some(true)).unwrap_or(false),
+                    None => false,
+                };
+                json!([l, ok])
+            }).collect();
+            json!({"k":"blind_sign","schema":schema_abs(&iss.schema),"nkey":ngens(&iss.signing_key, "y"),"nresp":nresp,
+                   "req_labels":req_labels,"known":valid,"has_revocation":known.values().any(|c| matches!(c, ClaimData::Revocation(_)))})
+        };
         match obj {
             "ipub" => match from_tree::<IssuerPublic<S>>(&t2) {
                 // holder builds a request from issuer-supplied public data
-                Ok(ip) => out = class(catch_unwind(AssertUnwindSafe(|| BlindCredentialRequest::<S>::new(&ip, &blind_claims)))),
+                Ok(ip) => {
+                    out = class(catch_unwind(AssertUnwindSafe(|| BlindCredentialRequest::<S>::new(&ip, &blind_claims))));
+                    abs = json!({"k":"request_new","schema":schema_abs(&ip.schema),"ngens":ngens(&ip.verifying_key, "y_blinds"),
+                                 "labels":blind_claims.keys().cloned().collect::<Vec<_>>()});
+                }
                 Err(e) => decode_err = Some(e),
             },
             "request" => match from_tree::<BlindCredentialRequest<S>>(&t2) {
@@ -670,6 +703,7 @@ fn run_blind<S: ShortGroupSignatureScheme>(v: &Value) -> Value {
                     if out != "panic" && class(catch_unwind(AssertUnwindSafe(|| r.verify(&issuer)))) == "panic" {
                         out = "panic";
                     }
+                    abs = sign_abs(&issuer, &r.blind_claim_labels, nresp_of(&r.blind_signature_context), &known);
                 }
                 Err(e) => decode_err = Some(e),
             },
@@ -677,16 +711,23 @@ fn run_blind<S: ShortGroupSignatureScheme>(v: &Value) -> Value {
                 Ok(k) => {
                     let mut iss = issuer.clone();
                     out = class(catch_unwind(AssertUnwindSafe(|| iss.blind_sign_credential(&req, &k))));
+                    abs = sign_abs(&issuer, &req.blind_claim_labels, nresp_of(&req.blind_signature_context), &k);
                 }
                 Err(e) => decode_err = Some(e),
             },
             "bundle" => match from_tree::<BlindCredentialBundle<S>>(&t2) {
-                Ok(b) => out = class(catch_unwind(AssertUnwindSafe(|| b.to_unblinded(&blind_claims, blinder)))),
+                Ok(b) => {
+                    abs = json!({"k":"unblind","schema":schema_abs(&b.issuer.schema),"bundle_labels":b.credential.claims.keys().cloned().collect::<Vec<_>>(),
+                                 "blind_labels":blind_claims.keys().cloned().collect::<Vec<_>>(),"revocation_label":b.credential.revocation_label});
+                    out = class(catch_unwind(AssertUnwindSafe(|| b.to_unblinded(&blind_claims, blinder))));
+                }
                 Err(e) => decode_err = Some(e),
             },
             _ => match from_tree::<BTreeMap<String, ClaimData>>(&t2) {
                 Ok(bc) => {
                     let b = bundle.clone();
+                    abs = json!({"k":"unblind","schema":schema_abs(&b.issuer.schema),"bundle_labels":b.credential.claims.keys().cloned().collect::<Vec<_>>(),
+                                 "blind_labels":bc.keys().cloned().collect::<Vec<_>>(),"revocation_label":b.credential.revocation_label});
                     out = class(catch_unwind(AssertUnwindSafe(|| b.to_unblinded(&bc, blinder))));
                     if out != "panic" {
                         let o2 = class(catch_unwind(AssertUnwindSafe(|| BlindCredentialRequest::<S>::new(&ipub, &bc))));
@@ -699,7 +740,7 @@ fn run_blind<S: ShortGroupSignatureScheme>(v: &Value) -> Value {
             },
         }
         match decode_err {
-            None => results.push(with_at(json!({"i":i,"desc":d,"decode":"ok","out":out}))),
+            None => results.push(with_at(json!({"i":i,"desc":d,"decode":"ok","out":out,"abs":abs}))),
             Some(e) => results.push(with_at(json!({"i":i,"desc":d,"decode": if e == "panic" {"panic"} else {"err"}}))),
         }
     }
